@@ -26,6 +26,12 @@ def gen_case(rng, idx):
         # every fifth program has 5-7 tasks, so that chunk sizes 3 and 4 leave a ragged last chunk
         prog, feats, losses, tasks, shared = ajlib.gen_mtl(rng, alias=True if idx % 3 == 1 else None,
                                                            nt=(rng.choice([5, 6, 7]) if idx % 5 == 0 else None))
+    if idx % 4 == 3:
+        # one loss multiplied by 2^24 + 1 (an integer float32 cannot hold): its gradient w.r.t. the features, and
+        # with it a row of the Jacobian of a float64 trunk, does not survive a round trip through float32
+        losses = list(losses)
+        li = rng.randrange(len(losses))
+        losses[li] = prog.op("scale", [losses[li]], c=2 ** 24 + 1)
     t = len(losses)
     leaves = [x for x in range(prog.n()) if prog.is_leaf[x] and prog.req[x]]
     calls = []
